@@ -732,8 +732,14 @@ func (l *Local) factoryAllocWorker(ctx context.Context) {
 			l.status = statusInUse
 		} else {
 			eniID := l.eni.ID
+			// never ask for more than the eni can still hold: ips of a failed assign stay on the eni
+			// until they are unassigned, the pending jobs must not be sent again on top of them
 			v4Count := min(l.batchSize, l.allocatingV4.Len())
 			v6Count := min(l.batchSize, l.allocatingV6.Len())
+			if l.cap > 0 {
+				v4Count = min(v4Count, max(l.cap-len(l.ipv4), 0))
+				v6Count = min(v6Count, max(l.cap-len(l.ipv6), 0))
+			}
 
 			if v4Count > 0 {
 				l.cond.L.Unlock()
